@@ -687,6 +687,10 @@ def c_methexpr(a, b):
     out.append(b)
     return out
 
+def c_methval_call(a, b):
+    fmt = ('%s-' + str(ev(a))).__mod__
+    return fmt(ev(b))
+
 def c_meth(v, a):
     return K(v).caller_m(a)
 
@@ -755,6 +759,7 @@ def main():
         'c_yield': itertools.product(vals, vals), 'c_dupe': itertools.product(vals, vals), 'c_with2': itertools.product(vals, vals),
         'c_named_cond': itertools.product([None] + vals, vals), 'c_methval': itertools.product(vals, vals), 'c_star': itertools.product(vals, vals),
         'c_starcall': itertools.product(vals, vals), 'c_starcall_kw': itertools.product(vals, vals), 'c_methexpr': itertools.product(vals, vals),
+        'c_methval_call': itertools.product(vals, vals),
         'c_rng_swapped': itertools.product(vals, vals), 'c_closure': itertools.product(vals, vals), 'c_try_rest': [(v,) for v in vals], 'c_try_ret': [(v,) for v in vals], 'c_try_norets': [(v,) for v in vals], 'c_rng_self': itertools.product(vals, vals),
     }
     bad = 0
